@@ -10,7 +10,7 @@ for K in 1 2 3; do
   N=$P-m$((OFF+K))
   git -C $WT reset -q --hard; git -C $WT clean -qfd
   bash $VERIF/harness/tools/verify_seed.sh $WT $D $P $N 2>&1 | grep -E '^(RESULT|KEPT|REJECTED)'
-  [ -d $VERIF/seeded/$N ] && { NAMES="$NAMES $N"; rm -rf $SNAP/seeded/$N; cp -r $VERIF/seeded/$N $SNAP/seeded/; }
+  [ -d $VERIF/seeded/$N ] && { NAMES="$NAMES $N"; [ "$(readlink -f $SNAP)" != "$(readlink -f $VERIF)" ] && { rm -rf $SNAP/seeded/$N; cp -r $VERIF/seeded/$N $SNAP/seeded/; }; }
 done
 git -C $WT reset -q --hard
 [ -n "$NAMES" ] && (cd $SNAP && PYTHONPATH=/repo/src:$SNAP PYTHONHASHSEED=0 /venv/bin/python -m harness.tools.run_seeded --worktree $WT $NAMES 2>&1 | cut -c1-260)
